@@ -7,6 +7,7 @@ import Oq3.Driver.Pratt
 import Oq3.Driver.Include
 import Oq3.Driver.Sema
 import Oq3.Driver.Accessors
+import Oq3.Driver.Unescape
 
 open Oq3.Driver
 
@@ -34,6 +35,7 @@ def main (args : List String) : IO UInt32 := do
   | ["parse"] => loop stdin stdout parseLine; return 0
   | ["sema"] => loop stdin stdout semaLine; return 0
   | ["accessors"] => loop stdin stdout accessorsLine; return 0
+  | ["unescape"] => loop stdin stdout Oq3.Driver.Unescape.unescapeLine; return 0
   | ["tree", uc] => do
       let tab ← readUClass uc
       loop stdin stdout (treeLine tab); return 0
